@@ -273,3 +273,61 @@ def run(ctx):
             reach |= gs.reachable(t)
         ctx.check(bool(te) and not (reach & set(jq)), "C03-R4", "gen_json_string:empty-regex-rejected",
                   "an always-empty pattern cannot reach regex generation", "gen_json_string generates a string lexeme for an always-empty pattern", site=gs.where())
+    # the syntactic fast path that lets gen_json_string skip that check: `always_non_empty` may answer `true` only for
+    # AST shapes that cannot denote the empty language.  A regex string, an expression reference, an intersection, a
+    # complement and NoMatch can (`[^\\s\\S]`, `a & b`): for those variants the answer must be the constant `false`
+    # (decided on the variant table of the match: discriminant value -> variant name is taken from the type, the value
+    # returned on that arm from the CFG).
+    ane = ctx.try_body("llguidance::json::compiler::always_non_empty", "C03-R4")
+    if ane is not None:
+        MAY_BE_EMPTY = ("And", "Not", "NoMatch", "Regex", "SearchRegex", "ExprRef")
+        table = None
+        for sb, e, targets, otherwise in ane.switch_edges():
+            if e[0] != "discr":
+                continue
+            for st in ane.blocks[sb]["st"]:
+                if st["s"] == "assign" and st["r"].get("rv") == "discr" and st["r"].get("adt", "").endswith("RegexAst") and st["r"].get("vn"):
+                    names = {int(v): n for v, n in st["r"]["vn"]}
+                    table = {names[int(v)]: t for v, t in targets if int(v) in names}
+                    for v, n in names.items():
+                        table.setdefault(n, otherwise)
+            if table:
+                break
+        if not table:
+            ctx.violation("C03-R4", "always_non_empty:variant-table", "always_non_empty no longer dispatches on the RegexAst variant (table not found)", site=ane.where())
+        else:
+            def arm_result(t0):
+                """'false' | 'true' | 'computed' for the arm starting at block t0 (up to the join with other arms)"""
+                others = {t for n, t in table.items() if t != t0}
+                seen, todo, res = set(), [t0], set()
+                while todo:
+                    x = todo.pop()
+                    if x in seen or x in others:
+                        continue
+                    seen.add(x)
+                    for st in ane.blocks[x]["st"]:
+                        if st["s"] == "assign" and st["p"] == [0]:
+                            ev = ane.expr_rvalue(st["r"])
+                            res.add({0: "false", 1: "true"}.get(ev[1], "computed") if ev[0] == "const" else "computed")
+                    tt = ane.blocks[x]["term"]
+                    if tt["t"] == "call" and tt.get("dest") == [0]:
+                        res.add("computed")
+                    # stop at the common join (a block with more than one predecessor that is reached from other arms too)
+                    for y in ane.succs(x):
+                        if len(ane.preds(y)) > 1 and not res:
+                            todo.append(y)
+                        elif len(ane.preds(y)) <= 1:
+                            todo.append(y)
+                return res
+            bad = []
+            for n in MAY_BE_EMPTY:
+                if n not in table:
+                    continue
+                r = arm_result(table[n])
+                if r != {"false"}:
+                    bad.append("%s -> %s" % (n, "/".join(sorted(r)) or "?"))
+            ctx.check(not bad and sum(1 for n in MAY_BE_EMPTY if n in table) >= 5, "C03-R4", "always_non_empty:may-be-empty-variants-answer-false",
+                      "always_non_empty answers the constant false for %s" % ", ".join(MAY_BE_EMPTY),
+                      "always_non_empty answers %s: a pattern that denotes the empty language (e.g. `[^\\s\\S]`) skips the emptiness check, the "
+                      "schema compiles, and the property/array item leads into a state with an empty mask" % "; ".join(bad), site=ane.where())
+
